@@ -194,6 +194,27 @@ pub fn run(env: &Env) -> i32 {
             None => vec![],
         });
     }
+    // deep nesting: instances of every group's patterns 70 .. 300 levels below the file root
+    {
+        let mut deep: Vec<String> = Vec::new();
+        for n in [70usize, 140, 300] {
+            for wrap in 0..3 {
+                let inner = "s1 = ( a >= b ) ? arr . length : 1024 * a / b * c ;\np1 [ 0 ] = 1 ;\ni ++ ;\nrequire ( a && b , \"m\" ) ;\nif ( a == address ( 0 ) ) { }\ntoken . transfer ( a , b ) ;\nselfdestruct ( payable ( msg . sender ) ) ;\n";
+                let (open, close) = match wrap {
+                    0 => ("{\n".to_string(), "}\n".to_string()),
+                    1 => ("if ( c ) {\n".to_string(), "}\n".to_string()),
+                    _ => ("for ( ; ; ) {\n".to_string(), "}\n".to_string()),
+                };
+                let body = format!("{}{}{}", open.repeat(n), inner, close.repeat(n));
+                let parens = format!("y = {} s1 = 7 {} ;\n", "( ".repeat(n), " )".repeat(n));
+                deep.push(format!("pragma solidity ^0.8.17 ;\ncontract D {{\nuint256 s1 ;\nuint256 s2 ;\nuint256 public s3 ;\nfunction kill ( uint256 [ ] memory p1 , string memory p2 ) public {{\n{body}{parens}}}\nconstructor ( ) {{\ns2 = 1 ;\n}}\n}}\n"));
+            }
+        }
+        enum_stream(env, &mut st, deep.len() as u64, |i, s| {
+            s.count("deep_programs");
+            check_text("deep", &prop, &deep[i as usize], s)
+        });
+    }
     if prop == "C06" {
         // wide contracts: n functions before a constructor (boundaries of small counters)
         let ns: Vec<usize> = vec![1, 2, 127, 128, 255, 256, 257, 511, 512, 513, 1000];
